@@ -81,12 +81,12 @@ def foldCmp (r : Option String) (cmpMn : Mn) (i1 i2 : Instr) : Bool :=
   | none => false
 
 /-- the pair rules (all tests run, later ones add flags) -/
-def pairRules (i1 i2 : Instr) (acc xr yr : Option String) : PairDecision :=
+def pairRules (i1 i2 : Instr) (acc xr yr : Option String) (fl : OFlags := .a) : PairDecision :=
   let both := (i1.mn == .PLA && i2.mn == .PHA && !i1.prot && !i2.prot)
     || foldCmp acc .CMP i1 i2 || foldCmp xr .CPX i1 i2 || foldCmp yr .CPY i1 i2
   let second :=
     (i1.mn == .JMP && i2.mn == .JMP && !i1.prot && !i2.prot)
-    || (i1.mn == .STA && i2.mn == .LDA && i1.opd == i2.opd && !i2.prot)
+    || (i1.mn == .STA && i2.mn == .LDA && i1.opd == i2.opd && fl == .a && !i2.prot)
     || (i1.mn == .LDA && i2.mn == .STA && i1.opd == i2.opd && !i2.prot)
     || (i1.mn == .LDY && i2.mn == .STY && i1.opd == i2.opd && !i2.prot)
     || (i1.mn == .LDX && i2.mn == .STX && i1.opd == i2.opd && !i2.prot)
@@ -144,28 +144,31 @@ def updateKnowledge (code : Array Line) (it : Nat) (ins : Instr)
   | .LDX =>
     let acc := clearIf acc endsX
     let yr := clearIf yr endsX
-    let rm := match xr with | some v => if v == ins.opd then !ins.prot else false | none => false
+    let rm := match xr with | some v => if v == ins.opd && flags == .x then !ins.prot else false | none => false
     (acc, some ins.opd, yr, .x, rm)
   | .LDY =>
     let acc := clearIf acc endsY
     let xr := clearIf xr endsY
-    let rm := match yr with | some v => if v == ins.opd then !ins.prot else false | none => false
+    let rm := match yr with | some v => if v == ins.opd && flags == .y then !ins.prot else false | none => false
     (acc, xr, some ins.opd, .y, rm)
   | .DEC | .INC =>
-    (clearIf acc (· == ins.opd), clearIf xr (· == ins.opd), clearIf yr (· == ins.opd), .unknown, false)
+    (clearIf acc (fun v => !isImm v), clearIf xr (fun v => !isImm v), clearIf yr (fun v => !isImm v), .unknown, false)
   | .INX | .DEX => (clearIf acc endsX, none, clearIf yr endsX, .x, false)
   | .INY | .DEY => (clearIf acc endsY, clearIf xr endsY, none, .y, false)
   | .TAX =>
     let accX := match acc with | some v => endsX v | none => false
-    (if accX then none else acc, if accX then none else acc, clearIf yr endsX, flags, false)
+    (if accX then none else acc, if accX then none else acc, clearIf yr endsX, .x, false)
   | .TAY =>
     let accY := match acc with | some v => endsY v | none => false
-    (if accY then none else acc, clearIf xr endsY, if accY then none else acc, flags, false)
-  | .TXA => (xr, xr, yr, flags, false)
-  | .TYA => (yr, xr, yr, flags, false)
+    (if accY then none else acc, clearIf xr endsY, if accY then none else acc, .y, false)
+  | .TXA => (xr, xr, yr, .a, false)
+  | .TYA => (yr, xr, yr, .a, false)
   | .STA | .STX | .STY =>
     (clearIf acc (fun v => !isImm v), clearIf xr (fun v => !isImm v), clearIf yr (fun v => !isImm v), flags, false)
-  | .ADC | .SBC | .EOR | .AND | .ORA | .LSR | .ASL | .PLA | .PHA => (none, xr, yr, flags, false)
+  | .ADC | .SBC | .EOR | .AND | .ORA | .PLA => (none, xr, yr, .a, false)
+  | .LSR | .ASL | .ROL | .ROR => (none, xr, yr, if ins.opd.isEmpty then .a else .unknown, false)
+  | .PHA => (none, xr, yr, flags, false)
+  | .PLP => (acc, xr, yr, .unknown, false)
   | .JSR | .JMP => (none, none, none, flags, false)
   | .CPX | .CPY | .CMP => (acc, xr, yr, .unknown, false)
   | _ => (acc, xr, yr, flags, false)
@@ -268,7 +271,7 @@ def optStep (s : OptSt) : Outcome :=
   if s.first = j then .done s else   -- impossible: `first` and `second` are distinct `&mut` borrows
   match instrAt s.code s.first, instrAt s.code j with
   | some i1, some i2 =>
-    let d := pairRules i1 i2 s.acc s.xr s.yr
+    let d := pairRules i1 i2 s.acc s.xr s.yr s.flags
     let k := knowStage s i2 d
     applyStage k.1 i1 i2 j d k.2
   | _, _ => .done s   -- unreachable!() in the Rust code
